@@ -18,6 +18,13 @@ func (s *Server) backgroundExpiring(wg *sync.WaitGroup) {
 	s.loopUntilServerStops(bgExpireDelay, func() {
 		s.mu.LockLowPriority()
 		defer s.mu.Unlock()
+		if s.config.followHost() != "" {
+			// A follower applies the deletes its leader logs. Its own clock
+			// must not decide: when the stream is late, a deadline that the
+			// leader has moved or removed meanwhile (PERSIST, EXPIRE, SET)
+			// would delete the object here for good.
+			return
+		}
 		now := time.Now()
 		s.backgroundExpireObjects(now)
 		s.backgroundExpireHooks(now)
